@@ -245,15 +245,56 @@ def rule_eqvshape(ctx, prop: str) -> RuleResult:
                 strict = True
     strict_elsewhere = [n for n in ae.body_nodes() if isinstance(n, ast.Call) and last_name(n) == "union" and "_UF_Strict" in ast.unparse(n.func)]
     need(strict and len(strict_elsewhere) == 1, ae, "strict-union", "the strict relation must be extended only under `if not config_set`")
-    # (3) new keys are materialised *before* the unions of this step
+    # (3) new keys are materialised *before* the unions of this step, each as its own private copy
+    #     of the universal relation.  Materialisation site = any store into _UF_Unv_key, wherever
+    #     it lives in the module (helper names are not anchors).
+    def fresh_copy(v: ast.AST) -> bool:
+        return isinstance(v, ast.Call) and isinstance(v.func, ast.Attribute) and v.func.attr == "copy_entire_UF" and dotted(v.func.value) == "_UF_Unv"
+
+    sites = []  # (func, node, ok, how)
+    for fn in m.funcs.values():
+        if not isinstance(fn.node, ast.FunctionDef):
+            continue
+        for n in fn.body_nodes():
+            if isinstance(n, (ast.Assign, ast.AugAssign)):
+                tgts = n.targets if isinstance(n, ast.Assign) else [n.target]
+                for t in tgts:
+                    if isinstance(t, ast.Subscript) and dotted(t.value) == "_UF_Unv_key":
+                        sites.append((fn, n, isinstance(n, ast.Assign) and fresh_copy(n.value), "item store"))
+                    if isinstance(t, ast.Name) and t.id == "_UF_Unv_key":
+                        sites.append((fn, n, False, "rebinding"))
+            if isinstance(n, ast.Call) and isinstance(n.func, ast.Attribute) and dotted(n.func.value) == "_UF_Unv_key" and n.func.attr in ("update", "setdefault", "__setitem__"):
+                ok_u = False
+                if n.func.attr == "update" and len(n.args) == 1 and isinstance(n.args[0], ast.DictComp):
+                    ok_u = fresh_copy(n.args[0].value)  # evaluated once per key
+                if n.func.attr in ("setdefault", "__setitem__") and len(n.args) == 2:
+                    ok_u = fresh_copy(n.args[1])
+                sites.append((fn, n, ok_u, n.func.attr))
+    if not sites:
+        raise AnalysisError("anchor vanished: no store into _UF_Unv_key in proc_eqv.py")
+    for fn, n, ok_s, how in sites:
+        need(ok_s, fn, "copy-from-universal",
+             f"a per-field relation must start as its OWN copy of the universal relation (`_UF_Unv_key[k] = _UF_Unv.copy_entire_UF()` evaluated per key); "
+             f"`{ast.unparse(n)[:70]}` ({how}) does not guarantee that — relations of fields first seen in the same step would share one object and a later step "
+             f"disturbing only one of them is recorded as exact",
+             f"{fn.qualname}: `{ast.unparse(n)[:60]}` private copy: {ok_s}")
+    mat_funcs = {fn.node.name for fn, _, _, _ in sites}
+    grew = True
+    while grew:  # helpers that reach a materialisation site through other helpers
+        grew = False
+        for fn in m.funcs.values():
+            if isinstance(fn.node, ast.FunctionDef) and fn.node.name not in mat_funcs and fn is not ae:
+                if any(isinstance(n, ast.Call) and last_name(n) in mat_funcs for n in fn.body_nodes()):
+                    mat_funcs.add(fn.node.name)
+                    grew = True
     first_union = min((n.lineno for n in ae.body_nodes() if isinstance(n, ast.Call) and last_name(n) == "union"), default=None)
-    new_key = [n.lineno for n in ae.body_nodes() if isinstance(n, ast.Call) and last_name(n) == "new_uf_by_eqv_key"]
+    new_key = [n.lineno for n in ae.body_nodes() if isinstance(n, ast.Call) and last_name(n) in mat_funcs]
+    new_key += [n.lineno for fn, n, _, _ in sites if fn is ae]
     need(bool(new_key) and first_union is not None and max(new_key) < first_union, ae, "newkey-before-union",
          "a relation for a newly seen field must be copied from the universal one before this step's unions are applied to it (else the disturbing step itself is inherited)")
     from .. import pat
 
-    nk = m.func("new_uf_by_eqv_key")
-    need(pat.has("_UF_Unv_key[_M_k] = _UF_Unv.copy_entire_UF()", nk.node), nk, "copy-from-universal", "a new per-field relation must start as a copy of the universal relation")
+    nk = ae
     cp = m.cls("_UnionFind").methods.get("copy_entire_UF")
     need(cp is not None and pat.has("for _M_v, _M_p in self.lookup.items():\n    _M_c.lookup[_M_v] = _M_p", cp.node), cp or nk, "copy-all-links", "copy_entire_UF must copy every parent link")
     # (4) every proc is a node of every relation
@@ -294,6 +335,14 @@ def rule_eqvshape(ctx, prop: str) -> RuleResult:
     c1 = pat.find("if not _UF_Unv.check_eqv(_M_a, _M_b):\n    return False", ce.node)
     ok = c1 is not None and pat.has("all((_M_u.check_eqv(_M_a, _M_b) for _M_k, _M_u in _UF_Unv_key.items() if _M_k not in _M_cs))", ce.node, c1[1])
     need(ok, ce, "check=all-nonexcluded", "check_eqv_proc must require connectivity in the universal and in every non-excluded per-field relation")
+    # (5b) the representative under which per-procedure analyses are cached must be taken in the
+    #      STRICT relation: procedures equivalent only modulo configuration differ in exactly
+    #      the configuration effects those analyses compute
+    gr = m.func("get_repr_proc")
+    finds = [n for n in gr.body_nodes() if isinstance(n, ast.Call) and isinstance(n.func, ast.Attribute) and n.func.attr == "find"]
+    need(bool(finds) and all(dotted(n.func.value) == "_UF_Strict" for n in finds), gr, "repr-strict",
+         "get_repr_proc must return the representative of the strict relation: with the universal one a callee derived by delete_config/write_config is analysed as its origin "
+         "(its configuration writes invented or forgotten) and delete_config / call_eqv accept changes of a field that is read later")
     # (6) union-find core
     uf = m.cls("_UnionFind")
     un = uf.methods["union"]
